@@ -48,6 +48,9 @@ def randgraph(
         k = int(random.randint(1, max(1, i)) * connectivity)
         if ensurelink:
             k = max(k, 1)
+        # the default connectivity exceeds 1 for small graphs; never ask for
+        # more vertices than there are
+        k = min(k, count)
 
         adj[verts[i]] = random.sample(verts, k)
 
